@@ -4,7 +4,7 @@
 import os
 from typing import Optional
 
-from antlr4 import FileStream, CommonTokenStream
+from antlr4 import FileStream, CommonTokenStream, Token
 from antlr4.error.ErrorListener import ErrorListener
 from .mal_lexer import malLexer
 from .mal_parser import malParser
@@ -47,5 +47,13 @@ class MalCompiler:
         parser.removeErrorListeners()
         parser.addErrorListener(error_listener)
         tree = parser.mal()
+        # The start rule does not end in EOF, the parser stops after the
+        # last declaration it can match. Whatever is left did not parse.
+        leftover = stream.LT(1)
+        if leftover.type != Token.EOF:
+            raise MalCompilerError(
+                f'{self.current_file}:{leftover.line}:{leftover.column}: '
+                f'extraneous input {leftover.text!r}'
+            )
 
         return malVisitor(compiler=self).visit(tree)
